@@ -23,8 +23,8 @@ def load_floors():
 
 
 def lost_confirmed(ctx, floors):
-    """Obligations discharged on the confirmed tree (floors.json) that are now `unknown`, or absent while another obligation of
-    the same rule on the same function is unknown (the recogniser gave up on that function)."""
+    """Obligations discharged on the confirmed tree (floors.json) that are now `unknown` or absent: the construct the rule was
+    confirmed on is no longer recognised, so the rule would pass vacuously -- reported as analysis-broken (exit 2), not as ok."""
     conf = [tuple(k) for k in (floors or {}).get("confirmed", [])]
     if not conf:
         return []
@@ -33,7 +33,7 @@ def lost_confirmed(ctx, floors):
     lost = []
     for k in conf:
         st = now.get(k)
-        if st == "unknown" or (st is None and (k[0], k[1]) in unk_pairs):
+        if st == "unknown" or st is None:
             lost.append(k)
     return lost
 
